@@ -94,6 +94,12 @@ def took_ok_fork(t):
 def run(ctx):
     prog = ctx.prog
     m, inits = build(prog)
+    frag = m.fragile_split()
+    ctx.ob('C06.D2', m.dispatch.qualname, 'line-split-cannot-fail',
+           not frag, 'the dispatcher unpacks a split of the line into a fixed '
+           'number of names without the matching maxsplit (%s): %s' % (
+               '; '.join('%s (line %d)' % (t, ln) for ln, t in frag),
+               'a client line with more words than the dispatcher unpacks raises out of dataReceived instead of being answered'))
     lossy = m.lossy_dispatch_key()
     ctx.ob('C06.D2', m.dispatch.qualname, 'command-word-taken-exactly',
            not lossy, 'the handler is chosen from the command word after it '
